@@ -478,7 +478,8 @@ for _name, _kinds, _rule in [
                       # an unexported provider in a library's set against a second source in the importing wire.Build
                       + ([("u", {"plant": ["dupunexp"], "units": [1, 2], "p_twin": 0.0, "plant_p": 1.0, "p_lib_structs": 0.9, "p_func": 0.85,
                                  "min_structs": 5, "max_structs": 9})] if _name == "C05" else []), _pairs_plan, set(), _planted,
-                       n_quick=60, n_thorough=600, build=False, runit=False, extra=_planted_oracle(_kinds))])
+                       n_quick=60, n_thorough=600, build=False, runit=False, extra=_planted_oracle(_kinds))]
+             + ([lambda rep, tier: __import__("vlib.c02tier", fromlist=["x"]).run_dup_spellings(rep, tier)] if _name == "C05" else []))
 
 register("C07",
          "unit tier: all digraphs with self-loops on <=3 (quick) / <=4 (thorough) nodes x node kinds {provider, field, "
